@@ -208,6 +208,15 @@ class Engine:
             return lv
         if sort in ("Mesh", "MeshPatt"):
             return self.fresh_mesh(name, st, assume=False)
+        if sort.startswith("Obj:"):
+            # an object of a named class whose content is opaque (only contracts/ghosts speak about it)
+            parts = sort[4:].split(",")
+            fields = {}
+            for fdecl in parts[1:]:
+                fname, fcls = fdecl.split("=")
+                fields[fname] = ObjV(fcls, {"__id__": IntV(fresh(f"{name}_{fname}"))})
+            fields["__id__"] = IntV(fresh(name + "_id"))
+            return ObjV(parts[0], fields)
         if sort == "CellSet":
             S = fresh_fun(name, z3.IntSort(), z3.IntSort(), z3.BoolSort())
             return SetV(lambda v: S(Z(v[0]), Z(v[1])), 2)
